@@ -19,7 +19,12 @@ from ..ucells import ucells
 def atoms_rec(ucell, dd, pos_in_old_frame, system):
     rel = ucell.box.position_cartesian_to_relative(pos_in_old_frame) * dd
     xi, ok = to_int(rel, 1, tol=1e-6)
-    q = system.atoms.q if 'q' in system.atoms.prop() else np.zeros(system.natoms, dtype=int)
+    q = np.array(system.atoms.q if 'q' in system.atoms.prop() else np.zeros(system.natoms, dtype=int))
+    if 'w' in system.atoms.prop():     # the vector property must still belong to the same atom as the scalar one
+        badw = ~np.all(system.atoms.w == np.outer(q.astype(float), [1.0, -0.5, 0.25]), axis=1)
+        q = np.where(badw, -1, q)
+    else:
+        q = np.full(system.natoms, -2)
     return [xi[k] + [int(system.atoms.atype[k]), int(q[k])] for k in range(system.natoms)], ok
 
 
